@@ -1,6 +1,6 @@
 (* C04 — Connection loss fails every call and hangs none. Theorems only; proofs in Proofs/ClientConnP.v *)
 From Coq Require Import List Bool Arith.
-From Sftp Require Import Conn.ClientConn Proofs.ClientConnP.
+From Sftp Require Import Conn.ClientConn Conn.ConnTrace Proofs.ClientConnP Proofs.ConnTraceP.
 Import ListNotations.
 
 (* for every interleaving of callers, deliveries, send failures and the receiver's failure: at most one result is ever
@@ -25,6 +25,16 @@ Theorem C04_delivered_survive : forall n tr s c s' id r,
   cstate_of c (callers s') = Some (CDone id r) -> forall j, r = ROk j -> j = id.
 Proof. exact own_reply_at_take. Qed.
 Print Assumptions C04_delivered_survive.
+
+(* ===== the tie to conn.go: trace acceptance (family cct) =====
+   The instrumented connection reports P (putChannel), S (send result), g (getChannel), B (broadcast), T (result taken);
+   P, g and B inside the clientConn mutex. `caccept_trace` replays them; every candidate explanation of an accepted trace
+   is a state the LTS reaches from n idle callers, so the invariant and every theorem above holds for what the real
+   connection did in that run. *)
+Theorem C04_accepted_trace_reachable : forall n tr cs, caccept_trace n tr = inl cs ->
+  cs <> [] /\ Forall (fun c => reach n (fst c) /\ cinv (fst c)) cs.
+Proof. exact accepted_conn_trace. Qed.
+Print Assumptions C04_accepted_trace_reachable.
 
 (* PARTIAL: the "at least once / in bounded time" half (every caller that is owed a result has it in its channel or an
    entry that the receiver or the broadcast will serve; goroutines end; Wait and Close return) is not yet a theorem; it is
